@@ -7,7 +7,7 @@ pub fn replay(prop: &'static str, engine: &str, case: &Value, path: &str) -> i32
         "tinylfu" => crate::lfu::replay_tinylfu(prop, case),
         "sampledlfu" => crate::lfu::replay_sampled(case),
         "grid" => crate::grid::replay_point(case["point"].as_str().unwrap_or("")),
-        "faults" => crate::faults::replay_case(case),
+        "faults" | "faults-convert" => crate::faults::replay_case(case),
         "probes" => crate::probes::replay_case(case),
         "conversions" => crate::grid::conversion_determinism(crate::plan::Tier::Thorough).violations.into_iter().map(|e| e.finding).collect(),
         "churn" => crate::grid::churn(crate::plan::Tier::Quick).violations.into_iter().map(|e| e.finding).collect(),
